@@ -947,6 +947,16 @@ func (c *conRun) checkFlushes(hi *history) {
 				if from > tt {
 					tt = from
 				}
+				if dc == nil {
+					// Which collections exist is decided by the collection map
+					// Flush fetches once, before it pins anything: "absent" is
+					// not a version captured in name order, it only has to have
+					// been the case at some instant of the Flush.
+					if from <= ev.Ret && until >= ev.Inv && best < 0 {
+						best, bestT = j, t
+					}
+					continue
+				}
 				if tt <= until && (best < 0 || tt < bestT) {
 					best, bestT = j, tt
 				}
